@@ -2,7 +2,7 @@ From CV Require Import Base Consts ConcChannel.
 Open Scope N_scope.
 
 Fixpoint csum (l : list cthread) : N := match l with [] => 0 | t :: r => ct_mine t + csum r end.
-Definition is_toping (t : cthread) : bool := match ct_stage t with CToPing | CToPingRelease => true | _ => false end.
+Definition is_toping (t : cthread) : bool := match ct_stage t with CToPing | CToPingRelease | CToPingB | CB1 _ => true | _ => false end.
 Fixpoint ntoping (l : list cthread) : N := match l with [] => 0 | t :: r => (if is_toping t then 1 else 0) + ntoping r end.
 
 Definition loop_busy (s : ccst) : bool := match cl_stage (cloop s) with CLIdle | CLCloseWrite => false | _ => true end.
@@ -91,6 +91,33 @@ Proof.
     + intros H; discriminate.
 Qed.
 
+Lemma bsend_inv s i t v lg : ccinv s -> nth_error (cthr s) i = Some t -> is_toping t = false ->
+  ccinv (let (s', t') := bsend_attempt s i t v lg in set_thr s' (upd_ct (cthr s) i t')).
+Proof.
+  intros Hinv En Hnt. pose proof Hinv as (K1 & K2 & K3 & K4 & K5 & K6 & K7 & K8).
+  pose proof (csum_upd (cthr s) i t) as SU. pose proof (ntoping_upd (cthr s) i t) as NU.
+  assert (Wt : wf_cprog (ct_mine t) (ct_ops t) = true) by (rewrite Forall_forall in K3; apply K3; eapply nth_error_In; exact En).
+  rewrite Hnt in NU.
+  unfold bsend_attempt. destruct (creg s) eqn:Hreg; cbn [negb]; [destruct (cc_full s)|].
+  - specialize (SU (mkCT (ct_ops t) (ct_mine t) (CBlocked v)) En). specialize (NU (mkCT (ct_ops t) (ct_mine t) (CBlocked v)) En).
+    unfold is_toping in NU. cbn in SU, NU.
+    ksplit; try assumption; try (intros _; reflexivity).
+    + lia.
+    + apply forall_upd_ct; [exact K3|exact Wt].
+    + intros _ Ha. destruct (K4 eq_refl Ha) as [H|[H|H]]; [left; exact H|right; left; kcbn; lia|right; right; exact H].
+  - specialize (SU (mkCT (ct_ops t) (ct_mine t) CToPingB) En). specialize (NU (mkCT (ct_ops t) (ct_mine t) CToPingB) En).
+    unfold is_toping in NU. cbn in SU, NU.
+    ksplit; try assumption; try (intros _; reflexivity).
+    + rewrite app_assoc, K1. reflexivity.
+    + lia.
+    + apply forall_upd_ct; [exact K3|exact Wt].
+    + intros _ _. right; left. kcbn. lia.
+    + intros Hf. congruence.
+  - specialize (SU (mkCT (ct_ops t) (ct_mine t) CIdle) En). specialize (NU (mkCT (ct_ops t) (ct_mine t) CIdle) En).
+    unfold is_toping in NU. cbn in SU, NU.
+    ksplit; try assumption; try lia; try (apply forall_upd_ct; [exact K3|exact Wt]); try (intros Hf; congruence).
+Qed.
+
 Lemma ccinv_thread_step s i t : ccinv s -> nth_error (cthr s) i = Some t ->
   ccinv (let (s', t') := ct_step s i t in set_thr s' (upd_ct (cthr s) i t')).
 Proof.
@@ -100,7 +127,7 @@ Proof.
   assert (BUSY : forall s', cloop s' = cloop s -> loop_busy s' = loop_busy s) by (intros s' E; unfold loop_busy; rewrite E; reflexivity).
   unfold ct_step. destruct (ct_stage t) eqn:Es.
   - (* idle: next operation *)
-    destruct (ct_ops t) as [|[v| |] r] eqn:Eo.
+    destruct (ct_ops t) as [|[v| | |v] r] eqn:Eo.
     + (* finished *) kcbn. rewrite (upd_ct_same _ _ _ En). destruct s; exact Hinv.
     + (* send *)
       cbn in Wt. apply andb_prop in Wt as [Wm Wr]. apply N.ltb_lt in Wm.
@@ -156,6 +183,26 @@ Proof.
         -- intros Hr [Ha|Ha]; [|lia].
            destruct (K4 Hr (or_introl Ha)) as [H|[H|H]]; [left; exact H|right; left; kcbn; lia|right; right; exact H].
         -- intros Hf. congruence.
+    + (* blocking send: its try_send *)
+      cbn in Wt. apply andb_prop in Wt as [Wm Wr]. apply N.ltb_lt in Wm.
+      assert (Hreg : creg s = true).
+      { destruct (creg s) eqn:E; [reflexivity|]. destruct (K7 eq_refl) as [A _]. lia. }
+      replace (negb (creg s)) with false by (rewrite Hreg; reflexivity).
+      destruct (cc_full s).
+      * specialize (SU (mkCT r (ct_mine t) (CB1 v)) En). specialize (NU (mkCT r (ct_mine t) (CB1 v)) En).
+        unfold is_toping in NU. rewrite Es in NU. cbn in SU, NU.
+        ksplit; try assumption; try (intros _; exact Hreg).
+        -- lia.
+        -- apply forall_upd_ct; [exact K3|exact Wr].
+        -- intros _ _. right; left. kcbn. lia.
+      * specialize (SU (mkCT r (ct_mine t) CToPingB) En). specialize (NU (mkCT r (ct_mine t) CToPingB) En).
+        unfold is_toping in NU. rewrite Es in NU. cbn in SU, NU.
+        ksplit; try assumption; try (intros _; exact Hreg).
+        -- rewrite app_assoc, K1. reflexivity.
+        -- lia.
+        -- apply forall_upd_ct; [exact K3|exact Wr].
+        -- intros _ _. right; left. kcbn. lia.
+        -- intros Hf. congruence.
   - (* the ping after an enqueue *)
     specialize (SU (mkCT (ct_ops t) (ct_mine t) CIdle) En). specialize (NU (mkCT (ct_ops t) (ct_mine t) CIdle) En).
     unfold is_toping in NU. rewrite Es in NU. cbn in SU, NU.
@@ -180,6 +227,26 @@ Proof.
     + lia.
     + apply forall_upd_ct; [exact K3|exact Wt].
     + intros Hr Ha. destruct (K4 Hr Ha) as [H|[H|H]]; [left; kcbn; lia|right; left; kcbn; lia|right; right; exact H].
+  - (* the ping after the enqueue of a blocking send *)
+    specialize (SU (mkCT (ct_ops t) (ct_mine t) CIdle) En). specialize (NU (mkCT (ct_ops t) (ct_mine t) CIdle) En).
+    unfold is_toping in NU. rewrite Es in NU. cbn in SU, NU.
+    ksplit; try assumption.
+    + lia.
+    + apply forall_upd_ct; [exact K3|exact Wt].
+    + intros _ _. left. kcbn. unfold INCREMENT_PING. lia.
+  - (* the ping of the failed try_send inside a blocking send *)
+    specialize (SU (mkCT (ct_ops t) (ct_mine t) (CB2 v)) En). specialize (NU (mkCT (ct_ops t) (ct_mine t) (CB2 v)) En).
+    unfold is_toping in NU. rewrite Es in NU. cbn in SU, NU.
+    ksplit; try assumption.
+    + lia.
+    + apply forall_upd_ct; [exact K3|exact Wt].
+    + intros _ _. left. kcbn. unfold INCREMENT_PING. lia.
+  - (* the blocking mpsc send *)
+    apply bsend_inv; [exact Hinv|exact En|unfold is_toping; rewrite Es; reflexivity].
+  - (* blocked in it *)
+    destruct (cc_full s && creg s).
+    + kcbn. rewrite (upd_ct_same _ _ _ En). destruct s; exact Hinv.
+    + apply bsend_inv; [exact Hinv|exact En|unfold is_toping; rewrite Es; reflexivity].
 Qed.
 
 Lemma ccinv_step s k : ccinv s -> ccinv (cc_step s k).
